@@ -76,7 +76,7 @@ def jobs_for(pid, rep):
         n += 1
 
     if pid == "C04":
-        per_cell = 30 if thorough else 8
+        per_cell = 60 if thorough else 8
         for (flush, e, dl) in c04_cells(thorough, rng):
             enc = ENCODINGS[e]
             theme = "latin" if enc == "latin-1" else "csv-hostile"
@@ -117,7 +117,7 @@ def jobs_for(pid, rep):
             add(ops, i % 2, {"io": flush, "nostore": not flush, "csv": {} if flush else {"flush_on_insert": False},
                              "prefill": True, "prefill_points": prefill_points(260, g)})
     elif pid in ("C12", "C16"):
-        nh = 400 if thorough else 60
+        nh = 2000 if thorough else 80
         focus = {"insert": 6, "insert_multiple": 3, "remove": 4, "update": 4, "update_all": 1, "drop": 2, "remove_all": 1, "fail": 0.1, "bad": 0.2} \
             if pid == "C12" else {"insert": 12, "insert_multiple": 5, "remove": 1, "update": 1, "bad": 0.1}
         for i in range(nh):
@@ -158,12 +158,12 @@ def jobs_for(pid, rep):
                 ops = [a for a in g.history(12, p_read=0.0) if a["op"] in ("insert", "insert_multiple")]
                 add(ops, 0, {"io": True, "mode": "a", "prefill": True, "prefill_points": prefill_points(g.r.choice([0, 3]), g)})
     elif pid == "C15":
-        nh = 1200 if thorough else 240
+        nh = 4000 if thorough else 240
         for i in range(nh):
             g = gen.Gen(rng.randrange(1 << 30), focus={"insert": 5, "remove": 5, "update": 4, "update_all": 1, "drop": 2, "reindex": 1, "fail": 0.3, "bad": 0.3, "repeat": 0.6}, handles=0.2)
             add(g.history(g.r.choice([10, 18, 28]), p_read=0.55), i % 2, {"io": True})
         # access modes
-        for i in range(120 if thorough else 24):
+        for i in range(600 if thorough else 24):
             g = gen.Gen(rng.randrange(1 << 30), focus={"insert": 3, "remove": 3, "update": 3, "update_all": 1, "drop": 2, "remove_all": 2, "reindex": 1}, handles=0.2)
             mode = ["r", "a", "w+", "r+"][i % 4]
             ai = 0 if mode == "a" else i % 2
@@ -249,7 +249,7 @@ def run(pid):
     recorded = traces.record_all(jobs)
     nkills = 0
     if pid == "C12":
-        extra, nkills = real_kills(recorded, jobs, 80 if thorough else 16, random.Random(rep.seed + 12))
+        extra, nkills = real_kills(recorded, jobs, 200 if thorough else 16, random.Random(rep.seed + 12))
         for t in extra:
             jobs.append((t["id"], "csv", t["auto_index"], [], [], core.NTK, core.NFK, {}))
         recorded = recorded + extra
